@@ -403,3 +403,84 @@ M('C09','get-drops-tree-error','ads/map_impl.go','''	valueBytes, err := m.tree.G
 	if valueBytes == nil {''','''	valueBytes, _ := m.tree.Get(keyBytes)
 
 	if valueBytes == nil {''','err/checked')
+
+# ---------------- C10
+M('C10','movebefore-wrong-assert','ds/list_impl.go','''	positionTyped, ok := position.(*listElement[T])
+	if !ok {
+		panic("unsupported ListElement type")
+	}
+
+	if typedElement.list.Load() != l || element == position || positionTyped.list.Load() != l {
+		return
+	}
+
+	l.move(typedElement, positionTyped.prev.Load())''','''	positionTyped, ok := element.(*listElement[T])
+	if !ok {
+		panic("unsupported ListElement type")
+	}
+
+	if typedElement.list.Load() != l || element == position || positionTyped.list.Load() != l {
+		return
+	}
+
+	l.move(typedElement, positionTyped.prev.Load())''','handle/validated ds.list.MoveBefore param position')
+M('C10','insertafter-no-membership-check','ds/list_impl.go','''	if positionTyped.list.Load() != l {
+		return nil
+	}
+
+	return l.insertValue(value, positionTyped)''','''	return l.insertValue(value, positionTyped)''','handle/validated ds.list.InsertAfter param position')
+M('C10','moveafter-position-unchecked','ds/list_impl.go','''	if typedElement.list.Load() != l || element == position || positionTyped.list.Load() != l {
+		return
+	}
+
+	l.move(typedElement, positionTyped)''','''	if typedElement.list.Load() != l || element == position {
+		return
+	}
+
+	l.move(typedElement, positionTyped)''','handle/validated ds.list.MoveAfter param position')
+M('C10','remove-keeps-len','ds/list_impl.go','''	e.list.Store(nil)
+	l.len--''','''	e.list.Store(nil)''','bookkeeping/sites')
+M('C10','insert-wrong-link','ds/list_impl.go','''	e.prev.Load().next.Store(e)
+	e.next.Load().prev.Store(e)
+	e.list.Store(l)''','''	e.prev.Load().next.Store(e)
+	e.next.Load().prev.Store(at)
+	e.list.Store(l)''','splice/agrees-with-container-list ds.list.insert')
+M('C10','move-missing-unlink','ds/list_impl.go','''	e.prev.Load().next.Store(e.next.Load())
+	e.next.Load().prev.Store(e.prev.Load())
+
+	e.prev.Store(at)''','''	e.prev.Load().next.Store(e.next.Load())
+
+	e.prev.Store(at)''','splice/agrees-with-container-list ds.list.move')
+M('C10','ts-moveafter-rlock','ds/list_impl.go','''func (t *threadSafeList[T]) MoveAfter(element, position ListElement[T]) {
+	t.mutex.Lock()
+	defer t.mutex.Unlock()''','''func (t *threadSafeList[T]) MoveAfter(element, position ListElement[T]) {
+	t.mutex.RLock()
+	defer t.mutex.RUnlock()''','lock/guarded-by threadSafeList.list in ds.threadSafeList.MoveAfter')
+M('C10','ts-remove-method-deleted','ds/list_impl.go','''func (t *threadSafeList[T]) Remove(element ListElement[T]) (removedValue T) {
+	t.mutex.Lock()
+	defer t.mutex.Unlock()
+
+	return t.list.Remove(element)
+}''','','decorator/declares-all ds.threadSafeList.Remove')
+M('C10','ts-insertbefore-calls-after','ds/list_impl.go','return t.list.InsertBefore(value, position)','return t.list.InsertAfter(value, position)','fwd/delegates ds.threadSafeList.InsertBefore')
+M('C10','ts-pushbacklist-under-lock','ds/list_impl.go','''	values := other.Values()
+
+	t.mutex.Lock()
+	defer t.mutex.Unlock()
+
+	for _, value := range values {
+		t.list.PushBack(value)
+	}''','''	t.mutex.Lock()
+	defer t.mutex.Unlock()
+
+	t.list.PushBackList(other)''','lock/no-list-param-under-lock ds.threadSafeList.PushBackList')
+M('C10','ts-len-nolock','ds/list_impl.go','''func (t *threadSafeList[T]) Len() int {
+	t.mutex.RLock()
+	defer t.mutex.RUnlock()
+''','''func (t *threadSafeList[T]) Len() int {
+''','lock/guarded-by threadSafeList.list in ds.threadSafeList.Len')
+M('C10','silent-insert-reorder-bookkeeping','ds/list_impl.go','''	e.list.Store(l)
+	l.len++
+''','''	l.len++
+	e.list.Store(l)
+''','',silent=True)
